@@ -1,6 +1,7 @@
 package props
 
 import (
+	"math/big"
 	"sort"
 	"sync"
 
@@ -310,4 +311,29 @@ func instOrder() [][2]int {
 		}
 	}
 	return r
+}
+
+// genLattice enumerates min + i*step for i = 0 .. n-1 (ascending), a fixed arithmetic lattice
+// whose odd step makes the low bits vary: values away from the boundary alphabet.
+func genLattice(bits int, n int64) seqGen {
+	lo := -(int64(1) << uint(bits-1))
+	span := new(big.Int).Lsh(big.NewInt(1), uint(bits))
+	step := new(big.Int).Div(span, big.NewInt(n)).Int64() | 1
+	// the last value lo + (n-1)*step must stay inside the format
+	for new(big.Int).Mul(big.NewInt(step), big.NewInt(n-1)).Cmp(span) >= 0 {
+		step -= 2
+	}
+	return func(shard, nsh int) func([]int64) int {
+		a, b := n*int64(shard)/int64(nsh), n*int64(shard+1)/int64(nsh)
+		i := a
+		return func(buf []int64) int {
+			k := 0
+			for i < b && k < len(buf) {
+				buf[k] = int64(uint64(lo) + uint64(i)*uint64(step))
+				k++
+				i++
+			}
+			return k
+		}
+	}
 }
